@@ -173,6 +173,21 @@ fn function_define(rng: &mut Rng) -> String {
 
 fn condition(rng: &mut Rng) -> String {
     let m = rng.pick(MACROS);
+    if rng.chance(1, 40) {
+        // arithmetic in conditions is outside what the preprocessor (and the model) accept today;
+        // it must be rejected, never crash
+        return [
+            format!("#if {m} - 1 > 0"),
+            "#if 1 - 2".to_string(),
+            format!("#if {m} + 18446744073709551615"),
+            format!("#if ({m} - 1) == 0"),
+            format!("#if {m} * 2"),
+            format!("#if 1 << 70"),
+            format!("#if {m} / 0"),
+            format!("#if -{m}"),
+        ][rng.below(8) as usize]
+            .clone();
+    }
     match weighted(rng, &[1, 2, 3, 3, 2, 3, 3]) {
         0 => "#if 0".to_string(),
         1 => "#if 1".to_string(),
